@@ -170,6 +170,11 @@ def _attr_chain(node):
     return None
 
 
+# builtins that never mutate a list / dict / bytearray argument (they may consume an iterator: iterators are not tracked)
+PURE_BUILTINS = {"enumerate", "len", "list", "tuple", "sorted", "zip", "range", "isinstance", "reversed", "min", "max", "sum", "any", "all",
+                 "set", "frozenset", "dict", "bytes", "bool", "int", "str", "repr", "abs", "hash", "id", "type", "ord", "chr", "memoryview"}
+
+
 def assigned_names(nodes):
     """(rebound names, names whose referenced heap object is mutated, call nodes) in statements.
     The second component is a dict name -> set of effects: "*" (anything reachable), "f" (field f
@@ -235,7 +240,8 @@ def assigned_names(nodes):
                         mut(name, parts[0] + ".*")
                     else:
                         mut(name, "*")
-            for a in list(n.args) + [k.value for k in n.keywords]:
+            pure = isinstance(f, ast.Name) and f.id in PURE_BUILTINS
+            for a in ([] if pure else list(n.args) + [k.value for k in n.keywords]):
                 ch = _attr_chain(a)
                 if ch:
                     name, parts = ch
